@@ -351,12 +351,85 @@ class Monitors:
             self._fired.add(monitor)
             self.violations.append({"monitor": monitor, "step": int(step), "metric": "rel_diff", "value": float(v), "tolerance": tol, **extra})
 
-    def dicts(self, monitor: str, step: int, a: dict, b: dict, tol: float, **extra):
+    def dicts(self, monitor: str, step: int, a: dict, b: dict, tol: float, floors: dict | float | None = None, **extra):
+        """Worst per-array relative difference; array k is scaled by max(max|a_k|, max|b_k|, floor_k).
+
+        floors (one number or per key) keep arrays that are zero up to round-off (a component that
+        vanishes by cancellation) from being judged relative to their own noise: they are judged on
+        an absolute scale derived from the run's field maximum instead (see `field_scale`).
+        """
         from fdsim import driver as dr
 
-        d, k = dr.dict_rel_diff(a, b)
-        self.check(monitor, step, d, tol, key=k, **extra)
-        return d
+        worst, wk = 0.0, ""
+        for k in sorted(set(a) | set(b)):
+            if k not in a or k not in b:
+                worst, wk = float("inf"), k
+                break
+            fl = floors.get(k, 0.0) if isinstance(floors, dict) else (floors or 0.0)
+            m = max(_amax(a[k]), _amax(b[k]))
+            sc = max(m, fl) if np.isfinite(m) else None
+            r = dr.rel_diff(a[k], b[k], sc if sc else None)
+            if r > worst:
+                worst, wk = r, k
+        self.check(monitor, step, worst, tol, key=wk, **extra)
+        return worst
+
+
+FLOOR = 1e-3  # arrays smaller than this fraction of the run's field maximum are compared on the absolute scale FLOOR*max
+
+
+def _amax(x) -> float:
+    x = np.asarray(x)
+    return float(np.max(np.abs(x))) if x.size else 0.0
+
+
+def field_scale(*field_dicts) -> float:
+    """max |E|, |H| over the given `driver.fields_np` dicts (non-finite values are ignored here; rel_diff reports them)."""
+    g = 0.0
+    for f in field_dicts:
+        for k in ("E", "H"):
+            m = _amax(f[k])
+            if np.isfinite(m):
+                g = max(g, m)
+    return g
+
+
+def box_measure(spec: dict, box, drop_axis: int | None = None) -> float:
+    """Physical volume of a cell box (or its face area normal to drop_axis) on the spec's grid."""
+    g = spec["grid"]
+    out = 1.0
+    for a in range(3):
+        if a == drop_axis:
+            continue
+        lo, hi = int(box[a][0]), int(box[a][1])
+        if g["kind"] == "rect":
+            out *= float(g["edges"][a][hi] - g["edges"][a][lo])
+        elif g["kind"] == "quasi":
+            out *= (hi - lo) * g["d"][a]
+        else:
+            out *= (hi - lo) * g["spacing"]
+    return out
+
+
+def record_floors(spec: dict, g_run: float, records: dict) -> dict:
+    """Absolute comparison floors for raw detector records given the running field maximum g_run.
+
+    field records are field samples or volume means (<= g_run); Poynting records are differences of
+    products of two field samples (reduced: times the face area) and can vanish by cancellation;
+    energy records are sums of non-negative terms and phasor records short (<= 12 term) sums, which
+    do not cancel to round-off, so they keep their own scale.
+    """
+    dets = {d["name"]: d for d in spec.get("detectors", [])}
+    out = {}
+    for key in records:
+        d = dets[key.split("/")[0]]
+        if d["kind"] == "field":
+            out[key] = FLOOR * g_run
+        elif d["kind"] == "poynting":
+            ax = [a for a in range(3) if d["box"][a][1] - d["box"][a][0] == 1]
+            area = box_measure(spec, d["box"], ax[0]) if (d.get("reduce", True) and ax) else 1.0
+            out[key] = FLOOR * g_run * g_run * area
+    return out
 
 
 DOCUMENTED_REJECTIONS = (
@@ -572,7 +645,9 @@ def loop_check(mon: Monitors, stats: dict, scene, arrays, stepped_state, lp: dic
     for f in fired:
         stats["fault_" + f] = stats.get("fault_" + f, 0) + 1
     count_steps(stats, T, scene.dt)
-    mon.dicts("loop_vs_stepped", T - 1, dr.full_np(stepped_state), dr.full_np(final), tol, replica=replica)
+    g = field_scale(dr.fields_np(stepped_state))
+    mon.dicts("loop_vs_stepped", T - 1, {f"f/{k}": v for k, v in dr.fields_np(stepped_state).items()}, {f"f/{k}": v for k, v in dr.fields_np(final).items()}, tol, floors=FLOOR * g, replica=replica)
+    mon.dicts("loop_vs_stepped", T - 1, dr.detectors_np(stepped_state), dr.detectors_np(final), tol, replica=replica)
     if int(final[0]) != T:
         mon.violations.append({"monitor": "step_count", "step": T - 1, "metric": "steps", "value": int(final[0]), "tolerance": T})
     return fired
